@@ -87,8 +87,8 @@ class Parser(object):
         t.lexer.lineno += t.value.count('\n')
 
     def t_linecomment(self, t):
-        r'//.*\n'
-        t.lexer.lineno += 1
+        r'//[^\n]*\n?'
+        t.lexer.lineno += t.value.count('\n')
 
     def t_error(self, t):
         t.lexer.skip(1)
